@@ -24,7 +24,10 @@ echo "suite targets failing (other than demo): $SUITE_FAIL ; demo fails with cha
 cd /repo && git apply $DEST/patch.diff || { echo "patch does not apply to /repo"; exit 3; }
 RES=""
 for P in $PROP $EXTRA; do
+  # the evidence file describes the unchanged tree: keep it, do not leave the seeded run's evidence behind
+  cp /verif/evidence/$P.json $DEST/.evidence_$P.bak 2>/dev/null
   cd /verif && ./check $P --tier quick > $DEST/check_$P.log 2>&1; RC=$?
+  mv $DEST/.evidence_$P.bak /verif/evidence/$P.json 2>/dev/null
   V=$(grep -c "^VIOLATION" $DEST/check_$P.log)
   RES="$RES $P:rc=$RC,violations=$V"
   grep "^VIOLATION" $DEST/check_$P.log | head -2
